@@ -7,7 +7,10 @@ data so that every boundary is hit (on / just inside / just outside, zero,
 negated, fuzzy pre-images, null).  Every case runs the REAL verify_df and
 compares each verdict with the independent three-valued semantics in
 mc/models/verify_spec.py; then the aggregation identities (totals, per-field
-counts, to_frame, str under every report mode).
+counts, to_frame, str under every report mode: printed totals, the fields
+listed, and per field its printed counts and one mark per constraint).  The
+result object itself is an E3 subject (layer 'observe'): looking at it in any
+order, any number of times, must not change what it says.
 """
 import contextlib
 import io
@@ -665,7 +668,12 @@ class C02(Check):
             'precision x epsilon {0,.01,.25,.5,unset} (min/max) or strict/'
             'sloppy/default (type); then missing fields, null-valued '
             'additions, all pairs of kinds, report modes on two-field frames, '
-            'and the .tdda-file route.  non-trivial = at least one verdict '
+            'every order of the five observations of one result object '
+            '(totals, per-field counts, .fields, to_frame/to_dataframe, str; '
+            'each twice; ascii on/off), and the .tdda-file route with the '
+            'path in every form (str, relative, pathlib, os.PathLike).  '
+            'Everywhere: a verdict, a to_frame cell and a printed mark only '
+            'for the constraints given.  non-trivial = at least one verdict '
             'was compared with a definite model answer on a non-empty column')
     assumptions = [
         'pandas 3.0.6 / numpy 2.5 as pinned; text columns are object or '
